@@ -590,3 +590,69 @@ func nonThresholdField(al *ssa.Alloc) string {
 	}
 	return bad
 }
+
+// ruleCloseAckUnregisters (C15/C10): the acknowledgement of a stream close removes the stream's entries.
+func ruleCloseAckUnregisters(c *Check, a *Analysis, rule string) {
+	p := c.P
+	if _, ok := c.rules[rule]; !ok {
+		c.Rule(rule, "stream close acknowledgement", 1)
+	}
+	sc := siteCounter{}
+	n := 0
+	for _, fn := range p.Fns {
+		if recvName(topParent(fn)) != "Conn" || len(pendingOps2(p, topParent(fn), "lookup")) == 0 || len(pendingOps2(p, topParent(fn), "update")) > 0 {
+			continue
+		}
+		// edges on which the response is known to acknowledge a stream close
+		edges, k := p.guardEdges(fn, matchFieldEqConst("upgrade", "Stream", 3))
+		if k == 0 {
+			continue
+		}
+		for e := range edges {
+			n++
+			delP, delS := false, false
+			_, _, missP := p.reachFromBlock(fn, e.to, isReturnLike, func(x ssa.Instruction) bool {
+				for _, d := range pendingOps(p, "delete") {
+					if d.Instr == x {
+						return true
+					}
+				}
+				return false
+			}, nil)
+			delP = !missP
+			_, _, missS := p.reachFromBlock(fn, e.to, isReturnLike, func(x ssa.Instruction) bool {
+				if cc, ok := x.(*ssa.Call); ok && calleeName(cc) == "builtin delete" && len(cc.Call.Args) > 0 {
+					return isLoadOf(p.canon(cc.Call.Args[0]), "Conn", "streams")
+				}
+				return false
+			}, nil)
+			delS = !missS
+			// the pending entry is removed only when the stream is still registered: that test's other edge is exempt
+			if !delP {
+				cut, _ := p.guardEdges(fn, func(cond ssa.Value) (bool, bool) {
+					// `_, ok := conn.streams[seq]; if ok` — the not-registered edge
+					if ex, isX := p.canon(cond).(*ssa.Extract); isX && ex.Index == 1 {
+						if lk, isL := ex.Tuple.(*ssa.Lookup); isL && isLoadOf(p.canon(lk.X), "Conn", "streams") {
+							return true, false
+						}
+					}
+					return false, false
+				})
+				_, _, missP2 := p.reachFromBlock(fn, e.to, isReturnLike, func(x ssa.Instruction) bool {
+					for _, d := range pendingOps(p, "delete") {
+						if d.Instr == x {
+							return true
+						}
+					}
+					return false
+				}, cut)
+				delP = !missP2
+			}
+			ok := delP && delS
+			c.Ob(rule, sc.key(fn, "close ack removes pending and streams entries"), p.InstrPos(e.to.Instrs[0]), ok, ifs(!ok, "the acknowledgement of a stream close does not remove the stream's entry from Conn.pending / Conn.streams: NumCalls never returns to zero and housekeeping never retires the otherwise unused connection"))
+		}
+	}
+	if n == 0 {
+		c.Undecided(rule, "no close-acknowledgement branch (upgrade.Stream == closeStream) found in the response reader")
+	}
+}
